@@ -76,6 +76,8 @@ class PM:
                 env[pat.arg] = tgt.arg
                 return True
             return pat.arg == tgt.arg
+        if isinstance(pat, ast.Call) and len(pat.args) == 1 and not pat.keywords and isinstance(pat.args[0], ast.Constant) and pat.args[0].value is Ellipsis:
+            return self._m(pat.func, tgt.func, env)  # f(...) matches any argument list
         if isinstance(pat, ast.ExceptHandler):
             if (pat.name is None) != (tgt.name is None):
                 return False
